@@ -296,6 +296,18 @@ func main() {
 				fmt.Println(o.Verdict, o.Key, o.Pos, o.Detail)
 			}
 		}
+	case "sv":
+		rules.SV(rc, 0)
+		n := 0
+		for _, o := range s.Obs {
+			if o.Rule == "SV" {
+				n++
+				if fmt.Sprint(o.Verdict) != "ok" {
+					fmt.Println(o.Verdict, o.Key, o.Pos, o.Detail)
+				}
+			}
+		}
+		fmt.Println("instances", n)
 	case "lc":
 		rules.LC(rc, 0)
 		for _, o := range s.Obs {
